@@ -5,6 +5,7 @@ package main
 
 import (
 	"fmt"
+	"regexp"
 	"go/token"
 	"sort"
 	"strings"
@@ -207,6 +208,15 @@ func (o *Obligation) Query(withModel bool) string {
 		hi := w - o.SplitBits
 		return fmt.Sprintf("(declare-const %s.hi (_ BitVec %d))\n(define-fun %s () (_ BitVec %d) (concat %s.hi (_ bv%d %d)))", o.SplitVar, hi, o.SplitVar, w, o.SplitVar, o.splitVal, o.SplitBits), true
 	}
+	{
+		var zs []string
+		zeroArrDecls.Range(func(k, v interface{}) bool { zs = append(zs, v.(string)); return true })
+		sort.Strings(zs)
+		for _, z := range zs {
+			b.WriteString(z)
+			b.WriteByte('\n')
+		}
+	}
 	for _, d := range vc.baseDecls {
 		if o.Strings && strings.HasPrefix(d, "(declare-const lit!") {
 			// literal becomes a defined string
@@ -253,6 +263,37 @@ func (o *Obligation) Query(withModel bool) string {
 			b.WriteString("(assert (errIs " + e + " " + e + "))\n")
 		}
 	}
+	{
+		// errors made from errno values: never nil, never one of the named errors, injective (ground instances)
+		seen := map[string]bool{}
+		var hay strings.Builder
+		for _, a := range vc.assumes[:o.nAss] {
+			hay.WriteString(a)
+			hay.WriteByte('\n')
+		}
+		hay.WriteString(o.PC.S)
+		hay.WriteString(o.Goal.S)
+		first := true
+		for _, m := range errnoRe.FindAllStringSubmatch(hay.String(), -1) {
+			if seen[m[0]] {
+				continue
+			}
+			seen[m[0]] = true
+			if first {
+				b.WriteString("(declare-fun errno.inv (Err) (_ BitVec 64))\n")
+				first = false
+			}
+			var cs []string
+			cs = append(cs, "(= (errno.inv "+m[0]+") "+m[1]+")")
+			for _, e := range es {
+				cs = append(cs, "(not (= "+m[0]+" "+e+"))")
+				if e != "err.nil" {
+					cs = append(cs, "(not (errIs "+m[0]+" "+e+"))")
+				}
+			}
+			b.WriteString("(assert (and " + strings.Join(cs, " ") + "))\n")
+		}
+	}
 	for _, a := range vc.assumes[:o.nAss] {
 		b.WriteString("(assert ")
 		b.WriteString(a)
@@ -266,6 +307,8 @@ func (o *Obligation) Query(withModel bool) string {
 	}
 	return b.String()
 }
+
+var errnoRe = regexp.MustCompile(`\(errno\.bv ([^() ]+|\([^()]*\))\)`)
 
 func unquoteGo(s string) string {
 	var out string
